@@ -17,6 +17,12 @@
     key_roundtrip          tags / string tags / metric / timestamp (inside the believe window); `ts_clamps` for the rest
     row_roundtrip          whole row: key + every string-top entry (any enumeration order of the Top map) + tail
     built_row_roundtrip    … for the row built by ANY list of (string-top tag, event) pairs (`built_row_WF`)
+    value/row/built_row_roundtrip_mapped   the same through the REAL handler glue of handleSendSourceBucket: an aggregator
+                           with any string→int32 mapping table (`receiveM`; helper lemmas in SH/Lemmas/TransferMap.lean)
+    agent_row_roundtrip    … for rows produced by ANY sequence of agent operations incl. string tops at capacity
+                           (redirect to Tail, resample rounds, FinishStringTop) for every admissible draw / fold order
+    sent_centroids, received_centroid_adds, received_implicit_centroid   exactly which part of "centroids with weights·sf"
+                           is proved (the list as sent and as added) and which is trusted (tdigest compression)
   Hypotheses and why they are part of "valid": event host tags are normalized (TagUnion: I has priority over S); the
   scaled numbers pass format.ValidateCounter/ValidateValue (|x| ≤ MaxFloat32 — otherwise the aggregator deliberately
   rejects the value with an ingestion error); string tops stay below capacity (no resampling, which is random).
@@ -27,6 +33,7 @@
   direct oracle does not judge that case.
 -/
 import SH.Model.Transfer
+import SH.Lemmas.TransferMap
 import Mathlib.Tactic.Ring
 import Mathlib.Tactic.Linarith
 import Mathlib.Algebra.Order.Field.Basic
@@ -344,6 +351,47 @@ theorem value_roundtrip (m : MultiValue α) (sf : α) (pct : Bool) (cents : List
 
 
 
+/-! ### percentile centroids: what is proved and what is trusted
+
+  PROVED (below): the list of centroids put on the wire is exactly the list `cents` reported by the agent digest's
+  `Centroids()` with every weight multiplied by sf, in the same order, means untouched (`sent_centroids`); the aggregator
+  adds exactly that list, element by element, to a fresh digest (`received_centroid_adds`); a value without digest
+  travels as the implicit centroid and is added as (min, count·sf) (`received_implicit_centroid`).
+  TRUSTED (library hrissan/tdigest, not modelled): what `Centroids()` returns for the adds made on the agent (the
+  compression on the agent side, `cents` is universally quantified here), and how the aggregator-side digest
+  compresses / merges the added list afterwards; float32 rounding of mean and weight on the wire. -/
+
+omit [IsStrictOrderedRing α] in
+theorem sent_centroids (var : Variant) (m : MultiValue α) (sf : α) (cents : List (Centroid α))
+    (hpos : 0 < m.v.counter * sf) (hv : m.v.vset = true) (hd : m.dg.isSome = true) (hne : cents ≠ []) :
+    (toTL var m sf true cents).cents = some (cents.map (fun c => ⟨c.mean, c.w * sf⟩)) ∧
+      (toTL var m sf true cents).implicit = false := by
+  have hn : ¬ m.v.counter * sf ≤ 0 := not_le.mpr hpos
+  have he : cents.isEmpty = false := by cases cents <;> simp_all
+  simp [toTL, hn, hv, toTLCents, toTLImplicit, hd, he, scaleCentroids]
+
+theorem received_centroid_adds (m : MultiValue α) (sf : α) (cents : List (Centroid α)) (h : Tag) (pick : Bool)
+    (wf : WFv m.v) (hu : m.uq.Pairwise (· < ·)) (hsf : 1 ≤ sf) (rg : InRange m sf cents)
+    (hpos : 0 < m.v.counter * sf) (hv : m.v.vset = true) (hd : m.dg.isSome = true) (hne : cents ≠ []) :
+    (mergeTL Variant.fixed MultiValue.empty (toTL Variant.fixed m sf true cents) h pick).mv.dg =
+      some (cents.map (fun c => ⟨c.mean, c.w * sf⟩)) := by
+  have hn : ¬ m.v.counter * sf ≤ 0 := not_le.mpr hpos
+  have he : cents.isEmpty = false := by cases cents <;> simp_all
+  rw [value_roundtrip m sf true cents h pick wf hu hsf rg]
+  cases hdg : m.dg with
+  | none => simp [hdg] at hd
+  | some l => simp [expected, hn, hv, expectedDg, hdg, he, scaleCentroids]
+
+theorem received_implicit_centroid (m : MultiValue α) (sf : α) (cents : List (Centroid α)) (h : Tag) (pick : Bool)
+    (wf : WFv m.v) (hu : m.uq.Pairwise (· < ·)) (hsf : 1 ≤ sf) (rg : InRange m sf cents)
+    (hpos : 0 < m.v.counter * sf) (hv : m.v.vset = true) (hd : m.dg = none) :
+    (mergeTL Variant.fixed MultiValue.empty (toTL Variant.fixed m sf true cents) h pick).mv.dg =
+      some [⟨m.v.min, m.v.counter * sf⟩] := by
+  have hn : ¬ m.v.counter * sf ≤ 0 := not_le.mpr hpos
+  rw [value_roundtrip m sf true cents h pick wf hu hsf rg]
+  simp [expected, hn, hv, expectedDg, hd]
+
+
 /-! ### rows built from events are well formed -/
 
 structure WFm (m : MultiValue α) : Prop where
@@ -656,6 +704,17 @@ theorem lookup_fresh (k : Tag) :
     have ih := lookup_fresh k rest (fun kv hkv => h kv (by simp [hkv]))
     simp [List.lookup, hb, ih]
 
+/-- one Top element whose key is new to the row: appended with the value merged into a fresh MultiValue -/
+theorem mergeTopElem_fresh (var : Variant) (r : Row α) (e : TLTop α) (h : Tag) (pick : Bool) (k : Tag)
+    (h1 : (tagOf e.tag (some e.stag)).isEmpty = false) (h2 : (tagOf e.tag (some e.stag)).normalize = k)
+    (hfr : ∀ d ∈ r.top, d.1 ≠ k) :
+    mergeTopElem var r e h pick =
+      ⟨{ r with top := r.top ++ [(k, (mergeTL var MultiValue.empty e.value h pick).mv)] },
+        (mergeTL var MultiValue.empty e.value h pick).err⟩ := by
+  unfold mergeTopElem
+  rw [h1, h2, topUpdate_fresh _ _ _ hfr, lookup_fresh _ _ hfr]
+  simp
+
 /-- one TL top element as keepF builds it -/
 def tlTop (sf : α) (pct : Bool) (cents : Tag → List (Centroid α)) (kv : Tag × MultiValue α) : TLTop α :=
   ⟨kv.1.s, hostI kv.1, toTL Variant.fixed kv.2 sf pct (cents kv.1)⟩
@@ -865,6 +924,411 @@ theorem built_row_roundtrip (k : Key) (evs : List (Tag × Event α)) (he : ∀ p
   exact ⟨by rw [hk]; exact hl1, by rw [hk]; exact hl2, by rw [hk]; exact h0, by rw [hk]; exact h1, by rw [hk]; exact h2,
     fun kv hkv => ⟨(wf.top kv hkv).1, (wf.top kv hkv).2, rgTop kv hkv⟩, wf.distinct, wf.tail, rgTail⟩
 
+/-! ### the aggregator knows string mappings (handleSendSourceBucket glue)
+
+  `mp` is the aggregator's string → int32 table.  Every string it maps (key string tags, host string tags, string-top
+  tags) arrives as its int; everything else is as in the unmapped theorems.  `mapTag mp h = h` says the agent host `h`
+  is what `getTagUnionBytes` returned (already an int if the host name is mapped). -/
+
+section mapped
+
+omit [Field α] [LinearOrder α] [IsStrictOrderedRing α] in
+theorem hostPair_ok (t : Tag) : HostPairOk (hostI t) (hostS t) := by
+  intro hs
+  by_cases hi : t.i = 0
+  · simp [hostI, hi]
+  · simp [hostS, hi] at hs
+
+omit [Field α] [LinearOrder α] [IsStrictOrderedRing α] in
+theorem hostDiffPair_ok (e : Bool) (t hmax : Tag) : HostPairOk (hostDiffI e t hmax) (hostDiffS t hmax) := by
+  intro hs
+  by_cases he : t = hmax
+  · simp [hostDiffS, he] at hs
+  · by_cases hi : t.i = 0
+    · cases hts : t.s with
+      | nil => simp [hostDiffS, he, hostS, hi, hts] at hs
+      | cons c cs => simp [hostDiffI, he, hi, hts]
+    · simp [hostDiffS, he, hostS, hi] at hs
+
+omit [IsStrictOrderedRing α] in
+/-- MultiValueToTL never writes a string host next to a non-zero int host -/
+theorem toTL_hostsOk (var : Variant) (m : MultiValue α) (sf : α) (pct : Bool) (cents : List (Centroid α)) :
+    TLHostsOk (toTL var m sf pct cents) := by
+  have hd : TLHostsOk (toTLHead var m sf) :=
+    ⟨hostPair_ok _, hostDiffPair_ok _ _ _, hostDiffPair_ok _ _ _⟩
+  unfold toTL
+  split
+  · exact ⟨fun h => by simp [TLValue.empty] at h, fun h => by simp [TLValue.empty] at h, fun h => by simp [TLValue.empty] at h⟩
+  · split
+    · exact hd
+    · exact ⟨hd.max, hd.min, hd.cnt⟩
+
+omit [Field α] [LinearOrder α] [IsStrictOrderedRing α] in
+theorem mapTag_sub (mp : Str → Int) (h t : Tag) (hh : mapTag mp h = h) : mapTag mp (sub h t) = sub h (mapTag mp t) := by
+  unfold sub
+  rw [isEmpty_mapTag]
+  split <;> simp [hh]
+
+/-- **C02, one MultiValue, aggregator with mappings.**  As `value_roundtrip`, with the three hosts mapped. -/
+theorem value_roundtrip_mapped (mp : Str → Int) (m : MultiValue α) (sf : α) (pct : Bool) (cents : List (Centroid α))
+    (h : Tag) (pick : Bool) (hh : mapTag mp h = h)
+    (wf : WFv m.v) (hu : m.uq.Pairwise (· < ·)) (hsf : 1 ≤ sf) (rg : InRange m sf cents) :
+    mergeTL Variant.fixed MultiValue.empty (mapTLValue mp (toTL Variant.fixed m sf pct cents)) h pick =
+      ⟨mapHostsMV mp (expected m sf h pct cents), 0⟩ := by
+  rw [mergeTL_map Variant.fixed mp _ h pick (toTL_hostsOk _ _ _ _ _) hh (le_refl 0),
+    value_roundtrip m sf pct cents h pick wf hu hsf rg]
+  rfl
+
+omit [Field α] [LinearOrder α] [IsStrictOrderedRing α] in
+/-- the hosts of the mapped expectation: the agent host for empty, else the host with its string mapped -/
+theorem mapped_hosts (mp : Str → Int) (v : ItemValue α) (h : Tag) (hh : mapTag mp h = h) :
+    mapTag mp (sub h v.hcnt) = sub h (mapTag mp v.hcnt) ∧ mapTag mp (sub h v.hmin) = sub h (mapTag mp v.hmin) ∧
+      mapTag mp (sub h v.hmax) = sub h (mapTag mp v.hmax) :=
+  ⟨mapTag_sub mp h _ hh, mapTag_sub mp h _ hh, mapTag_sub mp h _ hh⟩
+
+omit [Field α] [LinearOrder α] [IsStrictOrderedRing α] in
+/-- the aggregator recovers the MAPPED string-top key from the rewritten (stag, tag) -/
+theorem topKey_spec_m (mp : Str → Int) (k : Tag) (hk : TopKeyOk k) :
+    (tagOf (if 0 < mapStr mp k.s then some (mapStr mp k.s) else hostI k)
+        (some (if 0 < mapStr mp k.s then [] else k.s))).isEmpty = false ∧
+    (tagOf (if 0 < mapStr mp k.s then some (mapStr mp k.s) else hostI k)
+        (some (if 0 < mapStr mp k.s then [] else k.s))).normalize = mapTag mp k := by
+  obtain ⟨i, s⟩ := k
+  obtain ⟨h1, h2⟩ := hk
+  by_cases hi : i = 0
+  · subst hi
+    by_cases hm : 0 < mapStr mp s
+    · have hne : mapStr mp s ≠ 0 := by omega
+      simp [tagOf, Tag.isEmpty, Tag.normalize, mapTag, hm, hne]
+    · cases s with
+      | nil => simp [Tag.isEmpty] at h1
+      | cons c cs => simp [tagOf, hostI, Tag.isEmpty, Tag.normalize, mapTag, hm]
+  · have : s = [] := by simpa [Tag.isNorm, hi] using h2
+    subst this
+    simp [tagOf, hostI, Tag.isEmpty, Tag.normalize, mapTag, mapStr, hi]
+
+/-- the string-top entry an aggregator with mappings must hold -/
+def expectedTopM (mp : Str → Int) (sf : α) (h : Tag) (pct : Bool) (cents : Tag → List (Centroid α))
+    (kv : Tag × MultiValue α) : Tag × MultiValue α :=
+  (mapTag mp kv.1, mapHostsMV mp (expected kv.2 sf h pct (cents kv.1)))
+
+/-- Top loop of MergeWithTLMultiItem after the handler rewrote mapped strings; the MAPPED keys must stay distinct
+    (a string key and the int it maps to would be merged by the aggregator, with a random max-counter host) -/
+theorem mergeTops_spec_m (mp : Str → Int) (sf : α) (pct : Bool) (cents : Tag → List (Centroid α)) (h : Tag) (pick : Bool)
+    (hh : mapTag mp h = h) (hsf : 1 ≤ sf) :
+    ∀ (es : List (Tag × MultiValue α)) (r : Row α),
+      (∀ kv ∈ es, TopOk sf cents kv) → es.Pairwise (fun a b => mapTag mp a.1 ≠ mapTag mp b.1) →
+      (∀ kv ∈ es, ∀ d ∈ r.top, d.1 ≠ mapTag mp kv.1) →
+      mergeTops Variant.fixed h pick r (es.map (fun kv => mapTLTop mp (tlTop sf pct cents kv))) =
+        ⟨{ r with top := r.top ++ es.map (expectedTopM mp sf h pct cents) }, 0⟩
+  | [], r, _, _, _ => by simp [mergeTops]
+  | kv :: es, r, hok, hpw, hfresh => by
+    obtain ⟨hk, hwf, hrg⟩ := hok kv (by simp)
+    obtain ⟨hk1, hk2⟩ := topKey_spec_m mp kv.1 hk
+    have hfr : ∀ d ∈ r.top, d.1 ≠ mapTag mp kv.1 := hfresh kv (by simp)
+    have hval := value_roundtrip_mapped mp kv.2 sf pct (cents kv.1) h pick hh hwf.v hwf.uq hsf hrg
+    have helem : mergeTopElem Variant.fixed r (mapTLTop mp (tlTop sf pct cents kv)) h pick =
+        ⟨{ r with top := r.top ++ [expectedTopM mp sf h pct cents kv] }, 0⟩ := by
+      rw [mergeTopElem_fresh Variant.fixed r (mapTLTop mp (tlTop sf pct cents kv)) h pick (mapTag mp kv.1) hk1 hk2 hfr]
+      have hv' : mergeTL Variant.fixed MultiValue.empty (mapTLTop mp (tlTop sf pct cents kv)).value h pick =
+          ⟨mapHostsMV mp (expected kv.2 sf h pct (cents kv.1)), 0⟩ := hval
+      rw [hv']
+      rfl
+    obtain ⟨hpw1, hpw2⟩ := List.pairwise_cons.mp hpw
+    have ih := mergeTops_spec_m mp sf pct cents h pick hh hsf es
+      { r with top := r.top ++ [expectedTopM mp sf h pct cents kv] }
+      (fun x hx => hok x (by simp [hx])) hpw2 (by
+        intro x hx d hd
+        simp only [List.mem_append, List.mem_singleton] at hd
+        rcases hd with hd | hd
+        · exact hfresh x (by simp [hx]) d hd
+        · subst hd; exact hpw1 x hx)
+    simp only [List.map_cons, mergeTops, helem, ne_eq, not_true_eq_false, if_false, ih]
+    simp
+
+/-- the key as an aggregator with mappings stores it: a mapped string tag moves into the int tag of the same index -/
+def mapKey (mp : Str → Int) (k : Key) : Key :=
+  { k with
+    tags := List.zipWith (fun (t : Int) (s : Str) => if 0 < mapStr mp s then mapStr mp s else t) k.tags k.stags
+    stags := k.stags.map (fun (s : Str) => if 0 < mapStr mp s then [] else s) }
+
+/-- the row an aggregator with mappings must hold -/
+def expectedRowM (mp : Str → Int) (r : Row α) (sf : α) (h : Tag) (pct : Bool) (cents : Tag → List (Centroid α)) : Row α :=
+  { key := mapKey mp r.key
+    top := r.top.map (expectedTopM mp sf h pct cents)
+    tail := mapHostsMV mp (expected r.tail sf h pct (cents Tag.none)) }
+
+/-- **C02, whole row through the real handler glue.**  `receiveM` = KeyFromStatshouseMultiItem + Skeys mapping loop +
+    host / string-top mapping + MergeWithTLMultiItem, as handleSendSourceBucket composes them. -/
+theorem row_roundtrip_mapped (mp : Str → Int) (r : Row α) (bucketTs : Nat) (sf : α) (pct : Bool)
+    (cents : Tag → List (Centroid α)) (h : Tag) (hh : mapTag mp h = h) (hsf : 1 ≤ sf) (ok : RowOk r bucketTs sf cents)
+    (hdist : r.top.Pairwise (fun a b => mapTag mp a.1 ≠ mapTag mp b.1)) :
+    receiveM Variant.fixed mp (rowToTL Variant.fixed r bucketTs sf pct cents) bucketTs h =
+      ⟨expectedRowM mp r sf h pct cents, 0⟩ := by
+  have hk0 := key_roundtrip Variant.fixed r bucketTs sf pct cents ok.tags ok.stags ok.ts0 ok.ts1 ok.ts2
+  have hkey : keyFromTLm mp (rowToTL Variant.fixed r bucketTs sf pct cents) bucketTs = mapKey mp r.key := by
+    have hk := hk0.1
+    have e1 : padTo maxTags (0 : Int) (rowToTL Variant.fixed r bucketTs sf pct cents).keys = r.key.tags := by
+      have := congrArg Key.tags hk; simpa [keyFromTL] using this
+    have e2 : padTo maxTags ([] : Str) ((rowToTL Variant.fixed r bucketTs sf pct cents).skeys.getD []) = r.key.stags := by
+      have := congrArg Key.stags hk; simpa [keyFromTL] using this
+    have e3 : (tsFromTL (rowToTL Variant.fixed r bucketTs sf pct cents).t bucketTs).1 = r.key.ts := by
+      have := congrArg Key.ts hk; simpa [keyFromTL] using this
+    have e4 : (rowToTL Variant.fixed r bucketTs sf pct cents).metric = r.key.metric := rfl
+    simp only [keyFromTLm, e1, e2, e3, e4, mapKey]
+  have htops : ((mapItem mp (rowToTL Variant.fixed r bucketTs sf pct cents)).top.getD []) =
+      r.top.map (fun kv => mapTLTop mp (tlTop sf pct cents kv)) := by
+    cases ht : r.top with
+    | nil => simp [mapItem, rowToTL, ht]
+    | cons a l => simp [mapItem, rowToTL, ht, tlTop]
+  have hm := mergeTops_spec_m mp sf pct cents h false hh hsf r.top (Row.empty (mapKey mp r.key)) ok.top hdist
+    (by simp [Row.empty])
+  have htail := value_roundtrip_mapped mp r.tail sf pct (cents Tag.none) h false hh ok.tail.v ok.tail.uq hsf ok.tailRange
+  have htl : (mapItem mp (rowToTL Variant.fixed r bucketTs sf pct cents)).tail =
+      mapTLValue mp (toTL Variant.fixed r.tail sf pct (cents Tag.none)) := rfl
+  simp only [receiveM, mergeItemTL, hkey, htops, hm, htl, ne_eq, not_true_eq_false, if_false]
+  simp [Row.empty, htail, expectedRowM]
+
+/-- **C02, headline with the real handler glue**: rows built from any event list, aggregator with any mapping table. -/
+theorem built_row_roundtrip_mapped (mp : Str → Int) (k : Key) (evs : List (Tag × Event α)) (he : ∀ p ∈ evs, p.2.hostNorm)
+    (bucketTs : Nat) (sf : α) (pct : Bool) (cents : Tag → List (Centroid α)) (h : Tag) (hh : mapTag mp h = h) (hsf : 1 ≤ sf)
+    (hl1 : k.tags.length = maxTags) (hl2 : k.stags.length = maxTags)
+    (h0 : k.ts ≠ 0) (h1 : k.ts ≤ bucketTs) (h2 : bucketTs ≤ k.ts + believeWindow)
+    (rgTop : ∀ kv ∈ (evs.foldl (fun r p => rowEvent r p.1 p.2) (Row.empty k : Row α)).top, InRange kv.2 sf (cents kv.1))
+    (rgTail : InRange (evs.foldl (fun r p => rowEvent r p.1 p.2) (Row.empty k : Row α)).tail sf (cents Tag.none))
+    (hdist : (evs.foldl (fun r p => rowEvent r p.1 p.2) (Row.empty k : Row α)).top.Pairwise
+      (fun a b => mapTag mp a.1 ≠ mapTag mp b.1)) :
+    receiveM Variant.fixed mp (rowToTL Variant.fixed (evs.foldl (fun r p => rowEvent r p.1 p.2) (Row.empty k : Row α))
+        bucketTs sf pct cents) bucketTs h =
+      ⟨expectedRowM mp (evs.foldl (fun r p => rowEvent r p.1 p.2) (Row.empty k : Row α)) sf h pct cents, 0⟩ := by
+  have wf := built_row_WF k evs he
+  have hk := built_row_key k evs (Row.empty k : Row α) rfl
+  apply row_roundtrip_mapped mp _ _ _ _ _ _ hh hsf _ hdist
+  exact ⟨by rw [hk]; exact hl1, by rw [hk]; exact hl2, by rw [hk]; exact h0, by rw [hk]; exact h1, by rw [hk]; exact h2,
+    fun kv hkv => ⟨(wf.top kv hkv).1, (wf.top kv hkv).2, rgTop kv hkv⟩, wf.distinct, wf.tail, rgTail⟩
+
+/-- non-vacuity: a mapping table, a mapped agent host (int) and an unmapped one (string) satisfy `mapTag mp h = h`;
+    a mapped string host / string-top key really changes -/
+example : let mp : Str → Int := fun s => if s = ['y', 'y'] then 77 else if s = ['h'] then 7 else 0
+    mapTag mp ⟨1000, []⟩ = ⟨1000, []⟩ ∧ mapTag mp ⟨0, ['a', 'g']⟩ = ⟨0, ['a', 'g']⟩ ∧
+    mapTag mp ⟨0, ['y', 'y']⟩ = ⟨77, []⟩ ∧ mapTag mp ⟨0, ['h']⟩ = ⟨7, []⟩ ∧
+    [(⟨0, ['y', 'y']⟩ : Tag), ⟨2, []⟩, ⟨0, ['x']⟩].Pairwise (fun a b => mapTag mp a ≠ mapTag mp b) := by decide
+
+end mapped
+
+/-! ### string tops at capacity: resampling and FinishStringTop keep the row well formed, so the round trip covers them -/
+
+section capacity
+
+omit [IsStrictOrderedRing α] in
+theorem mvMerge_WF (a b : MultiValue α) (pick : Bool) (wa : WFm a) (wb : WFm b) : WFm (mvMerge a b pick) :=
+  ⟨itemMerge_WFv _ _ _ wa.v wb.v, foldl_setInsert_pairwise (fun x : Nat => x) b.uq a.uq wa.uq⟩
+
+omit [Field α] [LinearOrder α] [IsStrictOrderedRing α] in
+theorem lookup_mem (k : Tag) : ∀ (top : List (Tag × MultiValue α)) (m : MultiValue α), top.lookup k = some m → (k, m) ∈ top
+  | [], m, h => by simp [List.lookup] at h
+  | (k', m') :: rest, m, h => by
+    by_cases hk : k = k'
+    · subst hk
+      simp [List.lookup] at h
+      subst h; simp
+    · have hb : (k == k') = false := by simpa using hk
+      simp only [List.lookup, hb] at h
+      exact List.mem_cons_of_mem _ (lookup_mem k rest m h)
+
+theorem foldIntoTail_WF : ∀ (ks : List (Tag × Bool)) (r : Row α), RowWF r → RowWF (foldIntoTail r ks)
+  | [], r, wf => wf
+  | (k, pick) :: ks, r, wf => by
+    unfold foldIntoTail
+    cases hl : r.top.lookup k with
+    | none => exact foldIntoTail_WF ks r wf
+    | some m =>
+      apply foldIntoTail_WF ks
+      have hm := lookup_mem k r.top m hl
+      refine ⟨?_, ?_, mvMerge_WF _ _ _ wf.tail (wf.top _ hm).2⟩
+      · intro kv hkv
+        exact wf.top kv (List.mem_filter.mp hkv).1
+      · exact List.Pairwise.sublist List.filter_sublist wf.distinct
+
+theorem RowWF_tail (r : Row α) (e : Event α) (wf : RowWF r) (he : e.hostNorm) :
+    RowWF { r with tail := applyEvent r.tail e } :=
+  ⟨wf.top, wf.distinct, applyEvent_WF _ e wf.tail he⟩
+
+theorem RowWF_top (r : Row α) (topTag : Tag) (e : Event α) (wf : RowWF r) (he : e.hostNorm) (hemp : topTag.isEmpty = false) :
+    RowWF { r with top := topUpdate r.top topTag.normalize (fun m => applyEvent m e) } := by
+  refine ⟨?_, topUpdate_distinct _ _ _ wf.distinct, wf.tail⟩
+  intro kv hkv
+  rcases topUpdate_mem _ _ _ kv hkv with h | ⟨h1, m, h2, h3⟩
+  · exact wf.top kv h
+  · refine ⟨by rw [h1]; exact normalize_ok topTag hemp, ?_⟩
+    rw [h3]
+    rcases h2 with h2 | h2
+    · subst h2; exact applyEvent_WF _ e WFm_empty he
+    · exact applyEvent_WF _ e (wf.top _ h2).2 he
+
+theorem resampleLoop_WF (cap : Nat) : ∀ (rounds : List (List (Tag × Bool))) (a a' : AgentRow α),
+    RowWF a.row → resampleLoop cap a rounds = some a' → RowWF a'.row
+  | [], a, a', wf, h => by
+    unfold resampleLoop at h
+    split at h
+    · simp at h; subst h; exact wf
+    · simp at h
+  | ev :: rest, a, a', wf, h => by
+    unfold resampleLoop at h
+    split at h
+    · simp at h
+    · cases hr : resampleRound a ev with
+      | none => simp [hr] at h
+      | some a2 =>
+        simp only [hr] at h
+        unfold resampleRound at hr
+        split at hr
+        · simp at hr; subst hr
+          exact resampleLoop_WF cap rest _ a' (foldIntoTail_WF ev a.row wf) h
+        · simp at hr
+
+/-- every agent-side operation (event with the full MapStringTop incl. redirect and resample rounds; FinishStringTop)
+    keeps the row well formed — for every outcome of the random draws and every enumeration order -/
+theorem agentStep_WF (a a' : AgentRow α) (op : AgentOp α) (wf : RowWF a.row)
+    (he : ∀ cap t e rd rs, op = .event cap t e rd rs → e.hostNorm) (h : agentStep a op = some a') : RowWF a'.row := by
+  cases op with
+  | event cap topTag e redirect rounds =>
+    have hn := he cap topTag e redirect rounds rfl
+    simp only [agentStep, rowEventCap] at h
+    split at h
+    · simp at h; subst h; exact wf
+    · split at h
+      · simp at h; subst h; exact RowWF_tail _ e wf hn
+      · rename_i hemp
+        have hemp' : topTag.isEmpty = false := by simpa using hemp
+        split at h
+        · simp at h; subst h; exact RowWF_top _ topTag e wf hn hemp'
+        · split at h
+          · split at h
+            · simp at h
+            · simp at h; subst h; exact RowWF_tail _ e wf hn
+          · split at h
+            · simp at h
+            · rename_i a2 hl
+              simp at h; subst h
+              exact RowWF_top _ topTag e (resampleLoop_WF _ rounds a a2 wf hl) hn hemp'
+  | finish cap ev =>
+    simp only [agentStep, finishTop] at h
+    split at h
+    · simp at h; subst h; exact foldIntoTail_WF ev a.row wf
+    · simp at h
+
+def AgentOp.hostNorm : AgentOp α → Prop
+  | .event _ _ e _ _ => e.hostNorm
+  | .finish _ _ => True
+
+theorem agentRun_WF : ∀ (ops : List (AgentOp α)) (a a' : AgentRow α), RowWF a.row → (∀ op ∈ ops, AgentOp.hostNorm op) →
+    agentRun a ops = some a' → RowWF a'.row
+  | [], a, a', wf, _, h => by simp [agentRun] at h; subst h; exact wf
+  | op :: ops, a, a', wf, hn, h => by
+    unfold agentRun at h
+    split at h
+    · simp at h
+    · rename_i a2 hs
+      refine agentRun_WF ops a2 a' (agentStep_WF a a2 op wf ?_ hs) (fun o ho => hn o (by simp [ho])) h
+      intro cap t e rd rs heq
+      have := hn op (by simp)
+      rw [heq] at this
+      exact this
+
+omit [IsStrictOrderedRing α] in
+theorem agentRun_key : ∀ (ops : List (AgentOp α)) (a a' : AgentRow α), agentRun a ops = some a' → a'.row.key = a.row.key := by
+  intro ops
+  induction ops with
+  | nil => intro a a' h; simp [agentRun] at h; subst h; rfl
+  | cons op ops ih =>
+    intro a a' h
+    unfold agentRun at h
+    split at h
+    · simp at h
+    · rename_i a2 hs
+      rw [ih a2 a' h]
+      have foldKey : ∀ (ks : List (Tag × Bool)) (r : Row α), (foldIntoTail r ks).key = r.key := by
+        intro ks
+        induction ks with
+        | nil => intro r; rfl
+        | cons kp ks ihk =>
+          intro r
+          obtain ⟨k, pick⟩ := kp
+          unfold foldIntoTail
+          split
+          · exact ihk r
+          · rw [ihk]
+      have loopKey : ∀ (rounds : List (List (Tag × Bool))) (cap : Nat) (x y : AgentRow α),
+          resampleLoop cap x rounds = some y → y.row.key = x.row.key := by
+        intro rounds
+        induction rounds with
+        | nil =>
+          intro cap x y hh
+          unfold resampleLoop at hh
+          split at hh
+          · simp at hh; subst hh; rfl
+          · simp at hh
+        | cons ev rest ihr =>
+          intro cap x y hh
+          unfold resampleLoop at hh
+          split at hh
+          · simp at hh
+          · cases hr : resampleRound x ev with
+            | none => simp [hr] at hh
+            | some x2 =>
+              simp only [hr] at hh
+              unfold resampleRound at hr
+              split at hr
+              · simp at hr; subst hr
+                rw [ihr cap _ y hh]; exact foldKey ev x.row
+              · simp at hr
+      cases op with
+      | event cap topTag e redirect rounds =>
+        simp only [agentStep, rowEventCap] at hs
+        split at hs
+        · simp at hs; subst hs; rfl
+        · split at hs
+          · simp at hs; subst hs; rfl
+          · split at hs
+            · simp at hs; subst hs; rfl
+            · split at hs
+              · split at hs
+                · simp at hs
+                · simp at hs; subst hs; rfl
+              · split at hs
+                · simp at hs
+                · rename_i a3 hl
+                  simp at hs; subst hs
+                  exact loopKey rounds _ a a3 hl
+      | finish cap ev =>
+        simp only [agentStep, finishTop] at hs
+        split at hs
+        · simp at hs; subst hs; exact foldKey ev a.row
+        · simp at hs
+
+/-- **C02, headline incl. string tops at capacity.**  The row is produced by ANY sequence of agent operations — events
+    routed by the full MapStringTop (redirect to Tail after a resample, resample rounds evicting any admissible entries
+    in any order) and FinishStringTop — for any outcome of the random draws the code could see (`agentRun … = some a`).
+    The aggregator (with any mapping table) reconstructs exactly the row as it was sent: key, the string-top keys that
+    survived, and for each of them and for the tail (which now contains the folded entries) the scaled aggregates. -/
+theorem agent_row_roundtrip (mp : Str → Int) (k : Key) (ops : List (AgentOp α)) (a : AgentRow α)
+    (hn : ∀ op ∈ ops, AgentOp.hostNorm op) (hrun : agentRun ⟨Row.empty k, 0⟩ ops = some a)
+    (bucketTs : Nat) (sf : α) (pct : Bool) (cents : Tag → List (Centroid α)) (h : Tag) (hh : mapTag mp h = h) (hsf : 1 ≤ sf)
+    (hl1 : k.tags.length = maxTags) (hl2 : k.stags.length = maxTags)
+    (h0 : k.ts ≠ 0) (h1 : k.ts ≤ bucketTs) (h2 : bucketTs ≤ k.ts + believeWindow)
+    (rgTop : ∀ kv ∈ a.row.top, InRange kv.2 sf (cents kv.1)) (rgTail : InRange a.row.tail sf (cents Tag.none))
+    (hdist : a.row.top.Pairwise (fun x y => mapTag mp x.1 ≠ mapTag mp y.1)) :
+    receiveM Variant.fixed mp (rowToTL Variant.fixed a.row bucketTs sf pct cents) bucketTs h =
+      ⟨expectedRowM mp a.row sf h pct cents, 0⟩ := by
+  have wf := agentRun_WF ops ⟨Row.empty k, 0⟩ a ⟨by simp [Row.empty], by simp [Row.empty], WFm_empty⟩ hn hrun
+  have hk : a.row.key = k := agentRun_key ops ⟨Row.empty k, 0⟩ a hrun
+  apply row_roundtrip_mapped mp _ _ _ _ _ _ hh hsf _ hdist
+  exact ⟨by rw [hk]; exact hl1, by rw [hk]; exact hl2, by rw [hk]; exact h0, by rw [hk]; exact h1, by rw [hk]; exact h2,
+    fun kv hkv => ⟨(wf.top kv hkv).1, (wf.top kv hkv).2, rgTop kv hkv⟩, wf.distinct, wf.tail, rgTail⟩
+
+end capacity
+
 /-! ### the pinned tree (`Variant.repo`) violates the property: concrete, kernel-evaluated counterexamples over `Int` -/
 
 section witnesses
@@ -946,6 +1410,28 @@ example : ∀ e ∈ ([.counter 1 Tag.none false, .values [(2, 3)] [7] 0 ⟨9, []
   rcases he with rfl | rfl | rfl | rfl <;> exact rfl
 
 example : TopKeyOk ⟨5, []⟩ ∧ TopKeyOk ⟨0, ['x']⟩ := ⟨⟨rfl, rfl⟩, ⟨rfl, rfl⟩⟩
+
+/-- non-vacuity of `sent_centroids` / `received_centroid_adds` (with `exValue`, sf = 3/2, cents = [(7,1)]) -/
+example : (0 : Rat) < exValue.v.counter * (3 / 2) ∧ exValue.v.vset = true ∧ exValue.dg.isSome = true ∧
+    ([⟨7, 1⟩] : List (Centroid Rat)) ≠ [] := by
+  refine ⟨by norm_num [exValue], rfl, rfl, by simp⟩
+
+/-- non-vacuity of `agent_row_roundtrip` (`agentRun … = some a` with a real resample and a real FinishStringTop; the
+    model functions are generic, evaluated here over `Int`): capacity 2, three keys — the third insert resamples
+    (factor 2) and evicts key 1 into Tail, FinishStringTop(1) then folds key 2; key 3 survives, Tail holds count 2 -/
+example :
+    (agentRun (⟨Row.empty ⟨5, 1, [], []⟩, 0⟩ : AgentRow Int)
+      [.event 2 ⟨1, []⟩ (.counter 1 Tag.none false) false [],
+       .event 2 ⟨2, []⟩ (.counter 1 Tag.none false) false [],
+       .event 2 ⟨3, []⟩ (.counter 1 Tag.none false) false [[(⟨1, []⟩, false)]],
+       .finish 1 [(⟨2, []⟩, false)]]).map
+      (fun a => (a.sfLog2, a.row.top.map (·.1), a.row.tail.v.counter)) = some (1, [⟨3, []⟩], 2) := by decide
+
+/-- an impossible draw is rejected: an entry with count 5 cannot be evicted by a round with factor 2 -/
+example :
+    agentRun (⟨Row.empty ⟨5, 1, [], []⟩, 0⟩ : AgentRow Int)
+      [.event 1 ⟨1, []⟩ (.counter 5 Tag.none false) false [],
+       .event 1 ⟨2, []⟩ (.counter 1 Tag.none false) false [[(⟨1, []⟩, false)]]] = none := by decide
 
 end nonvacuity
 end SH.C02
